@@ -3,9 +3,10 @@
    models are in checked style: every Go index/slice expression that no preceding length check
    guards returns Panic when out of range, every non-structural loop takes fuel.
    The flag g = false is the code on this tree, g = true the dependency's UnmarshalBytes with the
-   missing guard (ln < 0 || ln+idx < idx -> error).  Unquote / Quote / time.Format are universally
+   missing guard (ln < 0 || ln+idx < idx -> error).  The flag fx of the field parser and of EscapeJsonStr:
+   true = the code (model/DecTree.v: tree_fields_fx, tree_escape_fx), false = the earlier code.  Unquote / Quote / time.Format are universally
    quantified parameters; go_unquote is the concrete model of strconv.Unquote. *)
-From LR Require Import lib.Base lib.DecLib model.DecXBinary model.DecKV model.DecFields model.DecUtf8 model.DecUnquote model.DecWire model.DecPos model.Json model.Formatter model.DecLqlTime.
+From LR Require Import lib.Base lib.DecLib model.DecTree model.DecXBinary model.DecKV model.DecFields model.DecUtf8 model.DecUnquote model.DecWire model.DecPos model.Json model.Formatter model.DecLqlTime.
 From LR Require Import proofs.DecXBinaryP proofs.DecKVP proofs.DecFieldsP proofs.DecWireP proofs.DecPosP proofs.JsonP proofs.FormatterP proofs.DecStoredP proofs.DecLqlTimeP.
 
 (* ------------------------------------------------------------------ the dependency's varint / bytes decoder *)
@@ -38,9 +39,9 @@ Print Assumptions C13_total_bytes_guarded.
 
 (* ------------------------------------------------------------------ write packet: wpIterator.init + the consumer's Get/Next loop *)
 
-Definition C13_total_wp_statement : Prop := forall buf, safe (wp_run false false go_unquote buf).
+Definition C13_total_wp_statement : Prop := forall buf, safe (wp_run false tree_fields_fx go_unquote buf).
 
-Theorem C13_total_wp_refuted : exists buf, wp_run false false go_unquote buf = Panic.
+Theorem C13_total_wp_refuted : exists buf, wp_run false tree_fields_fx go_unquote buf = Panic.
 Proof. exists huge_len. vm_compute. reflexivity. Qed.
 Print Assumptions C13_total_wp_refuted.
 
@@ -150,69 +151,72 @@ Print Assumptions C13_wf_reads_total.
 
 (* ------------------------------------------------------------------ EscapeJsonStr *)
 
-Definition C13_total_escape_statement : Prop := forall s, exists fuel, safe (escape_fuel fuel s).
+(* the code: total on every input (escape_json is the loop of the tree, variant tree_escape_fx = true, the one
+   the correspondence check runs) *)
+Theorem C13_total_escape : forall s, safe (escape_json s).
+Proof. exact escape_json_total. Qed.
+Print Assumptions C13_total_escape.
 
-Theorem C13_total_escape_refuted : forall fuel, escape_fuel fuel [xef; xbf; xbd] = OutOfFuel.
+(* what the repair bought: the earlier loop (escape_fuel = variant false, which did not advance over a valid
+   encoding of U+FFFD) never returns on EF BF BD, whatever the fuel ... *)
+Theorem C13_total_escape_unadvanced_refuted : forall fuel, escape_fuel fuel [xef; xbf; xbd] = OutOfFuel.
 Proof. intros fuel. exact (escape_fffd_loops fuel [x22]). Qed.
-Print Assumptions C13_total_escape_refuted.
+Print Assumptions C13_total_escape_unadvanced_refuted.
 
-Theorem C13_total_escape_partial : forall s, no_fffd s -> safe (escape_json s).
-Proof. exact escape_json_safe. Qed.
-Print Assumptions C13_total_escape_partial.
-
-(* the repaired loop (proposed_fixes/C13-escapejsonstr-ufffd): total on every input *)
-Theorem C13_total_escape_fixed : forall s, safe (escape_json_fixed s).
-Proof. exact escape_json_fixed_safe. Qed.
-Print Assumptions C13_total_escape_fixed.
+(* ... and was total exactly away from it: for either variant, a text none of whose positions decodes to
+   (RuneError, 3) is handled *)
+Theorem C13_total_escape_unadvanced_partial : forall fx s, no_fffd s -> safe (escape_json_g fx s).
+Proof. exact escape_json_g_safe. Qed.
+Print Assumptions C13_total_escape_unadvanced_partial.
 
 (* ------------------------------------------------------------------ what the write path stores *)
 
-Definition C13_stored_wf_statement : Prop := forall buf tags evs,
-  wp_run false false go_unquote buf = Ok (tags, evs) -> Forall (fun le => wf_fields (le_flds le)) evs.
+(* the code (fx = tree_fields_fx = true: the 255-byte limit is applied to the string that is stored): everything
+   handed to the partition has well-formed fields, for every Unquote and either variant of the dependency *)
+Theorem C13_stored_wf : forall g unquote buf tags evs,
+  wp_run g tree_fields_fx unquote buf = Ok (tags, evs) -> Forall (fun le => wf_fields (le_flds le)) evs.
+Proof. intros g unquote buf tags evs. exact (wp_run_wf g true unquote (or_introl eq_refl) buf tags evs). Qed.
+Print Assumptions C13_stored_wf.
 
-(* Go's Unquote turns 86 invalid bytes (88 with the quotes, below the 255-byte check) into 258 bytes:
-   the length byte wraps, the stored list is malformed and AsKVString panics on it *)
-Theorem C13_stored_wf_refuted : exists buf tags le,
+(* what the repair bought: with the limit on the raw piece (fx = false) Go's Unquote turns 86 invalid bytes (88 with
+   the quotes, below the limit) into 258 bytes: the length byte wraps, the stored list is malformed and AsKVString
+   panics on it *)
+Theorem C13_stored_wf_raw_limit_refuted : exists buf tags le,
   wp_run false false go_unquote buf = Ok (tags, [le]) /\ as_kv (fun v => v) (le_flds le) = Panic /\ ~ wf_fields (le_flds le).
 Proof. exists expanding_packet. exact expanding_packet_stored. Qed.
-Print Assumptions C13_stored_wf_refuted.
+Print Assumptions C13_stored_wf_raw_limit_refuted.
 
 Theorem C13_unquote_not_short_refuted : ~ unquote_short go_unquote.
 Proof. exact go_unquote_not_short. Qed.
 Print Assumptions C13_unquote_not_short_refuted.
 
-(* for every Unquote that keeps a text of at most 255 bytes at most 255 bytes long: everything handed to
-   the partition has well-formed fields *)
-Theorem C13_stored_wf_partial : forall g unquote, unquote_short unquote -> forall buf tags evs,
+(* the earlier parser was right for every Unquote that keeps a text of at most 255 bytes at most 255 bytes long *)
+Theorem C13_stored_wf_raw_limit_partial : forall g unquote, unquote_short unquote -> forall buf tags evs,
   wp_run g false unquote buf = Ok (tags, evs) -> Forall (fun le => wf_fields (le_flds le)) evs.
 Proof. intros g unquote H buf tags evs. exact (wp_run_wf g false unquote (or_intror H) buf tags evs). Qed.
-Print Assumptions C13_stored_wf_partial.
-
-(* with the repaired parser (the 255-byte limit is tested again after unquoting:
-   proposed_fixes/C13-unquote-expansion) no hypothesis on Unquote is needed, and the witness is rejected *)
-Theorem C13_stored_wf_fixed : forall g unquote buf tags evs,
-  wp_run g true unquote buf = Ok (tags, evs) -> Forall (fun le => wf_fields (le_flds le)) evs.
-Proof. intros g unquote buf tags evs. exact (wp_run_wf g true unquote (or_introl eq_refl) buf tags evs). Qed.
-Print Assumptions C13_stored_wf_fixed.
+Print Assumptions C13_stored_wf_raw_limit_partial.
 
 (* ... hence reading and evaluating on stored events is total: Value, AsKVString, Check and the evaluation
-   of any accepted format (the JSON element under the EscapeJsonStr condition) *)
-Theorem C13_read_total_partial : forall g fx unquote quote tsfmt tagval, (fx = true \/ unquote_short unquote) ->
-  forall buf tags evs le, wp_run g fx unquote buf = Ok (tags, evs) -> In le evs ->
+   of any accepted format, the JSON element included (no condition on the message any more) *)
+Theorem C13_read_total : forall g unquote quote tsfmt tagval buf tags evs le,
+  wp_run g tree_fields_fx unquote buf = Ok (tags, evs) -> In le evs ->
     (forall name, safe (value (le_flds le) name)) /\
     safe (as_kv quote (le_flds le)) /\
     check (le_flds le) = Ok tt /\
-    (forall fmt flds tl, format_parse fmt = Ok flds -> no_fffd (le_msg le) ->
+    (forall fmt flds tl, format_parse fmt = Ok flds ->
        safe (format_eval quote tsfmt tagval flds (le_ts le) (le_msg le) (le_flds le) tl [])).
-Proof. intros g fx unquote quote tsfmt tagval H buf tags evs le. exact (stored_reads_total g fx unquote quote tsfmt tagval H buf tags evs le). Qed.
-Print Assumptions C13_read_total_partial.
+Proof.
+  intros g unquote quote tsfmt tagval buf tags evs le.
+  exact (stored_reads_total_all g true unquote quote tsfmt tagval (or_introl eq_refl) buf tags evs le).
+Qed.
+Print Assumptions C13_read_total.
 
 (* ------------------------------------------------------------------ non-vacuity *)
 
 (* a valid two-event packet satisfies the hypothesis of the _partial theorems and decodes to its events *)
 Example C13_ex_valid_packet :
   nopanic_suffixes false valid_packet /\
-  wp_run false false go_unquote valid_packet =
+  wp_run false tree_fields_fx go_unquote valid_packet =
     Ok ([x61; x3d; x62], [ {| le_ts := 5; le_msg := [x6d; x31]; le_flds := [x01; x66; x01; x76; x01; x67; x01; x68] |};
                            {| le_ts := 7; le_msg := []; le_flds := [x01; x66; x01; x76] |} ]).
 Proof. exact valid_packet_ok. Qed.
@@ -245,7 +249,7 @@ Example C13_ex_lql_time : lql_rel_time (fun _ => true) [x20; x2d; x31; x2e; x35;
   lql_rel_time (fun _ => true) [x2d] = Err /\ lql_rel_time (fun _ => true) [x2d; x6d] = Ok tt.
 Proof. repeat split; vm_compute; reflexivity. Qed.
 
-(* EscapeJsonStr on a text without U+FFFD: control characters, quotes, a valid and an invalid non-ASCII byte *)
-Example C13_ex_escape : escape_json [x61; x22; x0a; x01; xc3; xa9; x80] =
-  Ok [x22; x61; x5c; x22; x5c; x6e; x5c; x75; x30; x30; x30; x31; xc3; xa9; x5c; x75; x66; x66; x66; x64; x22].
+(* EscapeJsonStr: control characters, quotes, a valid and an invalid non-ASCII byte, and a valid U+FFFD (copied) *)
+Example C13_ex_escape : escape_json [x61; x22; x0a; x01; xc3; xa9; x80; xef; xbf; xbd] =
+  Ok [x22; x61; x5c; x22; x5c; x6e; x5c; x75; x30; x30; x30; x31; xc3; xa9; x5c; x75; x66; x66; x66; x64; xef; xbf; xbd; x22].
 Proof. vm_compute. reflexivity. Qed.
